@@ -102,7 +102,8 @@ class C16(Prop):
         "pb_sum", "pb_nonneg", "pb_formula", "pb_identical_rows",
         "singleLinkage_sizes", "idFilterDigital_spec", "quicksort_permutation", "blosum_formula", "blosum_sum_nonneg",
         "pb_counts_digital", "pb_counts_text", "pb_relisting_digital", "pb_relisting_text", "gsc_sum_nonneg",
-        "gsc_identical_rows_fails_at", "blosum_identical_rows", "pairIdMx_spec", "blosum_relisting")]
+        "gsc_identical_rows_fails_at", "blosum_identical_rows", "pairIdMx_spec", "blosum_relisting",
+        "singleLinkage_numbering_not_first_seen")]
     claimed = True
     technique = ("Lean 4 proof over the exact (Q) instance of a numeric-class-polymorphic executable model of esl_distance/esl_cluster/"
                  "esl_msacluster/esl_quicksort/esl_msaweight/esl_tree(UPGMA) + bit-exact differential correspondence of the Float instance "
@@ -380,7 +381,40 @@ class C16(Prop):
                 if pa == pb and len(xa) == len(xb) and all(close(x, y) for x, y in zip(xa, xb)):
                     ctx.stats["weights_equal_up_to_rounding_only"] = ctx.stats.get("weights_equal_up_to_rounding_only", 0) + 1
                     continue
+            # freedoms the property leaves open (the monitors judge the implementation's own output in each case):
+            op = case["ops"][i].split()[0] if i < len(case["ops"]) else ""
+            tol = self._tolerated(op, a, b)
+            if tol:
+                ctx.stats[tol] = ctx.stats.get(tol, 0) + 1
+                continue
             return (i, a, b)
+        return None
+
+    @staticmethod
+    def _relabel(line):
+        """cluster numbering is not part of the property: renumber in order of first appearance, carry nin along"""
+        f = dict(x.split("=", 1) for x in line.split()[1:] if "=" in x)
+        c = [int(x) for x in f["c"].split(",")]
+        m = {}
+        for x in c: m.setdefault(x, len(m))
+        nin = None
+        if "nin" in f:
+            old = [int(x) for x in f["nin"].split(",")]
+            nin = [0] * len(old)
+            for k, v in m.items():
+                if 0 <= k < len(old) and v < len(old): nin[v] = old[k]
+        return (f["nc"], [m[x] for x in c], nin)
+
+    def _tolerated(self, op, a, b):
+        try:
+            if op in ("slink", "cluster") and a.startswith("ok nc=") and b.startswith("ok nc="):
+                if self._relabel(a) == self._relabel(b): return "same_partition_other_numbering"
+            if op in ("idfilter", "idfilteradv") and a.startswith("ok same=1 kept=") and b.startswith("ok same=1 kept="):
+                return "kept_set_differs_from_model_preference"     # independence + maximality are checked by the monitor
+            if op == "qsort" and a.startswith("ok ") and b.startswith("ok "):
+                if sorted(a.split()[1].split(",")) == sorted(b.split()[1].split(",")): return "other_order_among_ties"
+        except Exception:
+            return None
         return None
 
     # ------------------------------------------------------------------ monitors
